@@ -53,7 +53,7 @@ class Setup:
             cs = c.get("curves", {"law": "lawA", "temps": [333.15]})
             self.curve_set = U.make_curve_set(self.mixture, law=cs["law"], temps=tuple(cs["temps"]),
                                               basis=cs.get("basis", "weight"),
-                                              units=cs.get("units", U.Units.kg_m2_h_kPa))
+                                              units=cs.get("units", U.Units.kg_m2_h_kPa), xs=cs.get("xs"))
             self.membrane = U.make_membrane(self.mixture, p1, p2, t_ref=tref, ea1=ea[0], ea2=ea[1],
                                             curve_sets=[self.curve_set])
             ip = c.get("init_perm")
